@@ -105,6 +105,25 @@ type probeFolded struct {
 	Dep  dependency.Dependency `control:"Folded-Depends" multiline:"true"`
 }
 
+// members that share a Go name through embedding, under control keys of their own: two embedded
+// structs that both declare Name (ambiguous in Go, distinct in the text), and an outer Version that
+// shadows an embedded one
+type probeTwinA struct {
+	Name string `control:"A-Name"`
+}
+type probeTwinB struct {
+	Name string `control:"B-Name" required:"true"`
+}
+type probeTwinV struct {
+	Version string `control:"Inner-Version"`
+}
+type probeTwins struct {
+	probeTwinA
+	probeTwinB
+	probeTwinV
+	Version string `control:"Outer-Version"`
+}
+
 type probeEmbPass struct {
 	control.Paragraph
 	ProbeCommon
@@ -258,7 +277,7 @@ func dropFieldLines(text, field string) string {
 
 var specC09Scalars = Register(&Spec[ScalarsCase]{
 	Prop: "C09", Name: "scalars",
-	Rule: "values of a probe struct with string, int (full range), uint (full range incl. > MaxInt64), bool, renamed (control:\"X-Renamed\"), required (one possibly empty, one always empty), skipped (control:\"-\", on a string member and on a struct-kind member whose own members are named like document fields), unexported members (string, version.Version, sync.Mutex: neither written nor read), multiline:\"true\" and plain multi-line string fields; strings are single lines without surrounding blanks, multi-line texts are C08 line sequences, one in eight of those in a multiline-tagged member starting with one or two empty lines. Oracle: Unmarshal(Marshal(x)) == x field by field (multi-line strings up to one trailing newline, skipped field stays zero); in the emitted paragraph optional fields with empty rendering are absent, required ones present; removing a required field's lines makes Unmarshal fail; members of an anonymously embedded plain struct (required, optional, renamed) are written and read like the struct's own, also next to an embedded Paragraph; a Paragraph embedded one level down (or under an alias name) still carries the unknown fields through; folded (multiline:\"true\") lists, ints, bools and members of custom type (version, architecture - seven names, wildcards among them -, relationship field) without a strip tag, through Marshal/Unmarshal and through ConvertToParagraph/UnpackFromParagraph; a []*T written and read; three values (full, required-only, partial) marshalled as one slice read back as three values none of which carries a neighbour's fields. Non-trivial: >= 3 non-zero fields; distinct by value.",
+	Rule: "values of a probe struct with string, int (full range), uint (full range incl. > MaxInt64), bool, renamed (control:\"X-Renamed\"), required (one possibly empty, one always empty), skipped (control:\"-\", on a string member and on a struct-kind member whose own members are named like document fields), unexported members (string, version.Version, sync.Mutex: neither written nor read), multiline:\"true\" and plain multi-line string fields; strings are single lines without surrounding blanks, multi-line texts are C08 line sequences, one in eight of those in a multiline-tagged member starting with one or two empty lines. Oracle: Unmarshal(Marshal(x)) == x field by field (multi-line strings up to one trailing newline, skipped field stays zero); in the emitted paragraph optional fields with empty rendering are absent, required ones present; removing a required field's lines makes Unmarshal fail; members of an anonymously embedded plain struct (required, optional, renamed) are written and read like the struct's own, also next to an embedded Paragraph; a Paragraph embedded one level down (or under an alias name) still carries the unknown fields through; folded (multiline:\"true\") lists, ints, bools and members of custom type (version, architecture - seven names, wildcards among them -, relationship field) without a strip tag, through Marshal/Unmarshal and through ConvertToParagraph/UnpackFromParagraph; members that share a Go name through embedding under control keys of their own (two embedded structs declaring Name, an outer Version beside an embedded one); a []*T written and read; three values (full, required-only, partial) marshalled as one slice read back as three values none of which carries a neighbour's fields. Non-trivial: >= 3 non-zero fields; distinct by value.",
 	Check: func(c ScalarsCase, r *Recorder) error {
 		nz := 0
 		for _, s := range []string{c.Str, c.Renamed, c.Req, c.Multi, c.Text} {
@@ -525,6 +544,16 @@ var specC09Scalars = Register(&Spec[ScalarsCase]{
 			var viaP probeFolded
 			if err := control.UnpackFromParagraph(*fp, &viaP); err != nil || !strSliceEq(viaP.Lines, fin.Lines) || len(viaP.Nums) != 2 || viaP.Nums[0] != 1 || viaP.Nums[1] != c.Num || viaP.Count != 5 || !viaP.Flag || !foldedSame(viaP) {
 				return errf("folded members without a strip tag: ConvertToParagraph(%+v) = %q, which UnpackFromParagraph reads as %+v (err %v)", fin, fp.Values, viaP, err)
+			}
+		}
+		// members sharing a Go name through embedding
+		tw := probeTwins{probeTwinA: probeTwinA{Name: "a" + c.Req}, probeTwinB: probeTwinB{Name: "b" + c.Req}, probeTwinV: probeTwinV{Version: "inner" + c.Req}, Version: "outer" + c.Req}
+		if twText, err := marshalToText(&tw); err != nil {
+			return errf("Marshal(%+v): %v", tw, err)
+		} else {
+			var twBack probeTwins
+			if err := control.Unmarshal(&twBack, strings.NewReader(twText)); err != nil || twBack != tw {
+				return errf("members that share a Go name through embedding (A-Name / B-Name, Inner-Version / Outer-Version): %+v written as %q reads back as %+v (err %v)", tw, twText, twBack, err)
 			}
 		}
 		// a slice of pointers goes out the way it came in
@@ -1067,8 +1096,15 @@ type probePassLate struct {
 	control.Paragraph
 }
 
+// PassExtra: an embedded plain struct with nothing in it that goes to or comes from the text. Its
+// TYPE name is a Go name, not a field name: a document may well carry a field called "PassExtra".
+type PassExtra struct {
+	Cache int `control:"-"`
+}
+
 type probePass struct {
 	control.Paragraph
+	PassExtra
 	Package string
 	Version version.Version
 	Depends dependency.Dependency
@@ -1127,7 +1163,7 @@ func genPassCase(t *rapid.T) PassCase {
 			name := "X-" + genFromAlphabet(t, "xn", "ABCabc019-", 1, 6)
 			if rapid.IntRange(0, 5).Draw(t, "goName") == 0 {
 				// ordinary field names that coincide with Go member names of library types
-				name = rapid.SampledFrom([]string{"Epoch", "Revision", "Values", "Order", "Relations", "ABI", "OS", "CPU", "Paragraph", "Filename", "Hash", "Algorithm"}).Draw(t, "goNameV")
+				name = rapid.SampledFrom([]string{"Epoch", "Revision", "Values", "Order", "Relations", "ABI", "OS", "CPU", "Paragraph", "Filename", "Hash", "Algorithm", "PassExtra", "PassExtra", "Cache"}).Draw(t, "goNameV")
 			}
 			if usedUnknown[name] {
 				continue
